@@ -1,16 +1,22 @@
-"""C13 (ordering part) — VM weak-reference processing rounds run until the closure is complete."""
-import sys
+"""C13 — VM weak-reference processing rounds run until the closure is complete.
+
+Two parts, one evidence file / exit code: (1) the scheduler-wide ordering theorems + event-log conformance of package
+`sched` (this file), (2) the round protocol of the VMRefClosure sentinel + ephemeron-table semantics of package `gcweak`
+(`checks/c13_weak.py`, theorems in Props/C13Weak.lean), run through `extra`."""
+import json, sys
 from checks import sched_common as S
+from checks import c13_weak as WK
 
 PID = "C13"
-MODULES = ["MmtkModel.Props.C13"]
+MODULES = ["MmtkModel.Props.C13", *WK.MODULES]
 THEOREMS = ["Mmtk.Sched.sentinel_only_when_drained", "Mmtk.Sched.sentinel_installed_by_packet",
-            "Mmtk.Sched.onLastParked_sentinel", "Mmtk.Sched.step_other_sentinel", "Mmtk.Sched.open_only_when_quiescent"]
+            "Mmtk.Sched.onLastParked_sentinel", "Mmtk.Sched.step_other_sentinel", "Mmtk.Sched.open_only_when_quiescent",
+            *WK.THEOREMS]
 KEYS = S.COMMON_KEYS + ("gc:weak-outside-sentinel", "gc:weak-before-closure", "gc:weak-after-false",
                         "gc:weak-not-finished", "gc:forward-weak-count", "sched:not-quiescent")
 
 META = {
-    "text": "Ordering part of C13 on the scheduler model Model/Sched.lean: VMProcessWeakRefs is the sentinel of the "
+    "text": "PART 1 (scheduler-wide ordering) on the scheduler model Model/Sched.lean: VMProcessWeakRefs is the sentinel of the "
             "VMRefClosure bucket and re-installs itself while process_weak_refs returns true. Proved for every transition "
             "from every reachable state, all interleavings, all n >= 1: a sentinel leaves its slot (becomes runnable) only "
             "in the park transition of the last parked worker, with all other workers parked, a Gc goal current, every open "
@@ -21,10 +27,12 @@ META = {
             "Compressor forward after liveness): the monitor requires each VmProcessWeak callback to happen inside a "
             "VMRefClosure packet with all earlier stages drained and no earlier-stage packet running; oracles: never called "
             "again after it returned false, last call of a GC returned false, forward_weak_refs exactly once iff "
-            "needs_forward_after_liveness.",
-    "note": "'Objects it traced survive with updated addresses' is a heap property (C01-family snapshot monitors), not "
-            "covered here. The number of rounds is produced by the binding's ephemeron table (depth of the chain + 1).",
-    "technique": "Lean 4 proof: transition lemmas of an n-thread model; event-log conformance monitor + callback oracles",
+            "needs_forward_after_liveness. PART 2 (round protocol and survival): " + WK.META_PART["text"],
+    "note": "'Objects it traced survive with updated addresses' is checked by part 2 (ephdump / enum / snapshots compared "
+            "with the ephemeron model after every pause). " + WK.META_PART["note"],
+    "technique": "Lean 4 proof: transition lemmas of an n-thread scheduler model + protocol invariant of the sentinel "
+                 "rounds over all interleavings; event-log conformance monitors (every real action must be enabled in the "
+                 "model) + callback oracles + ephemeron-model comparison",
     "category": "proof",
 }
 
@@ -44,7 +52,23 @@ def build_programs(rng, tier):
 
 
 def main(argv=None):
-    return S.run_check(PID, MODULES, THEOREMS, KEYS, build_programs, argv, META)
+    a = S.std_args(argv)
+    if a.replay:
+        try:
+            key = json.load(open(a.replay)).get("key", "")
+        except Exception:
+            key = ""
+        if key in WK.KEYS or key.startswith(("gc:weak-not", "gc:weak-sentinel", "gc:weak-rounds", "gc:weak-next", "gc:forward-weak", "gc:eph", "gc:enum")) \
+                and key not in KEYS:
+            return WK.main(["--replay", a.replay, "--tier", a.tier, "--seed", str(a.seed)])
+
+    def weak_part(rng, tier):
+        lean2, corr2, viol2 = WK.run(tier, a.seed)
+        keep = ("evaluations", "distinct_nontrivial", "programs", "traces_validated_against_impl", "samples", "distribution", "rule")
+        return viol2, {"weak_rounds_part": {k: corr2.get(k) for k in keep if k in corr2},
+                       "weak_rounds_part_lean": {"obligations": lean2.get("obligations"), "discharged": lean2.get("discharged")}}
+
+    return S.run_check(PID, MODULES, THEOREMS, KEYS, build_programs, argv, META, extra=weak_part)
 
 
 if __name__ == "__main__":
